@@ -357,7 +357,7 @@ func emitMC(c *hlib.Ctx, s model3d.Solid, delta float64, big bool, c2f []float64
 	opBase := fmt.Sprintf("c12 mc %d %d %d %s family=%s delta=%v", len(xs), len(ys), len(zs), bitStr(l.bits), family, delta)
 	for _, st := range mcSettings(c, s, l, delta, big, c2f) {
 		st := st
-		c.EmitSite(opBase+" "+st.tag, guarded(func() string { return l.meshHash(st.run()) }), "corr:c12 mc/"+fnOf(st.tag))
+		emitCase(c, opBase+" "+st.tag, "corr:c12 mc/"+fnOf(st.tag), func() string { return l.meshHash(st.run()) })
 		c.Stat("c12.mc.cases", 1)
 	}
 }
